@@ -29,4 +29,25 @@ theorem delivered_payloads_not_recycled :
       Gen.ParserActs.hookBody, Gen.ParserActs.csiDispatchBody, Gen.ParserActs.escapeDispatchBody].all
         fun b => b.all fun s => match s with | .truncField _ => false | _ => true) = true := by decide
 
+/-- **Every hand-over of pooled storage is followed by a fresh `Get`** (round 4; the premise of the
+    pool models `Model/ParserPools.lean` / `ParserPoolsDrive.lean`, re-decided against the regenerated
+    bodies): `escapeDispatch`, `csiDispatch` and `hook` contain the statement
+    `if len(p.intermediate) > 0 { X.Intermediate = p.intermediate; p.intermediate = p.intermediatePool.Get() }`
+    (`.takeInter` is recognised only with the `Get`: without it — seeded change C08-m4 — the parser
+    keeps appending to the array the delivered sequence points to); `csiDispatch` takes its parameter
+    list with `p.paramListPool.Get()[:0]` and every parameter with `p.paramPool.Get()[:0]`, also after
+    each `;` (`.newParam`: without the `[:0]` — seeded change C02-m5 — a recycled slice keeps its old
+    contents); no statement of an action body is outside the vocabulary.  Membership, not position: a
+    reorder that keeps the statements does not alarm here (it is judged by the `<a>_body` theorems). -/
+theorem handover_takes_fresh_storage :
+    BStmt.takeInter .esc ∈ Gen.ParserActs.escapeDispatchBody ∧
+    BStmt.takeInter .csi ∈ Gen.ParserActs.csiDispatchBody ∧
+    BStmt.takeInter .dcs ∈ Gen.ParserActs.hookBody ∧
+    BStmt.op .newParams ∈ Gen.ParserActs.csiDispatchBody ∧
+    BStmt.op .newParam ∈ Gen.ParserActs.csiDispatchBody ∧
+    (Gen.ParserActs.csiDispatchBody.any fun s => match s with
+      | .paramLoop cases _ => cases.any fun c => c.1 = 0x3B && c.2.contains .newParam
+      | _ => false) = true ∧
+    Gen.ParserActs.unrecognised = [] := by decide
+
 end VaxisModel.Props.C08Payload
